@@ -456,6 +456,7 @@ func c14EndpointStream(r *hx.Rand, tier string, n int, w *bufio.Writer, caseNo *
 				S("host", host).S("req.iss", reqIssuer).S("aud", audKind).S("mint", mint).B("cfg.pkjwt", pkjwt).S("vlife", vlife)
 			iss := cl.c.ID
 			delegatedTo := "" // (deep 4) the subject of a `delegated` assertion (variant 15)
+			farClass := ""    // (deep 5) a time claim far from the verifier's clock (variants 8-10)
 			var tok string
 			proper := false // made by the library helper, for the addressed issuer, with a key registered for a private_key_jwt client
 			switch mint {
@@ -516,6 +517,15 @@ func c14EndpointStream(r *hx.Rand, tier string, n int, w *bufio.Writer, caseNo *
 					iat = sec + 1 + int64(hx.Pick(r, -2, -1, 0, 1, 2))
 				case 7:
 					iat = sec - 3600 + int64(hx.Pick(r, -2, -1, 0, 1, 2))
+				case 8: // (deep 5) iat FAR from the verifier's clock (c14FarTime), everything else genuine
+					iat, farClass = c14FarTime(r, sec)
+					farClass = "iat-" + farClass
+				case 9: // (deep 5) exp far
+					exp, farClass = c14FarTime(r, sec)
+					farClass = "exp-" + farClass
+				case 10: // (deep 5) iat exactly one int64-nanosecond wrap (2^64 ns, about 584.5 years) ahead / ago, or 2^55 .. 2^62 s
+					iat = sec + int64(hx.Pick(r, 18446744074, -18446744074, 1<<55, -(1 << 58), 1<<62))
+					farClass = "iat-wrap0"
 				case 15: // (deep 4) genuine in every respect, signed with the issuer's OWN key - but the subject is somebody else (a registered client / a user)
 					for sub == iss {
 						sub = hx.Pick(r, "pkA", "pkA", "pkB", "pkB", "pkE", "secK", "pkC", "user1")
@@ -611,6 +621,10 @@ func c14EndpointStream(r *hx.Rand, tier string, n int, w *bufio.Writer, caseNo *
 			ctxOK := cl.c.Auth == oidc.AuthMethodPrivateKeyJWT && iss == cl.c.ID && (pkjwt || ep == "bearer") && (owner == "" || owner == iss)
 			proper = proper && ctxOK
 			l.S("ep", ep).S("g.owner", owner).B("proper", proper).B("ctx.ok", ctxOK)
+			if farClass != "" {
+				l.S("far", farClass)
+				stats["endpoint-far-"+farClass]++
+			}
 			if ep == "bearer" {
 				l.L("scope.req", scopeReq).L("scope.forbidden", []string{refstore.ForbiddenScope})
 			}
